@@ -343,4 +343,15 @@ theorem T_C09_copy_independent (t : RT) (e : Ent) (h : Heap) (hin : InHeap e h) 
     have := (hfresh v hv).1
     omega
 
+/-- … and the other way round: whatever method is called on the *original* after copying, every cell of the copy
+    keeps its value (the copy lives on fresh cells, the original's leaves all lie in the old heap) -/
+theorem T_C09_copy_independent_rev (t : RT) (e : Ent) (h : Heap) (hin : InHeap e h) (i : Nat)
+    (hi : h.length ≤ i) :
+    Heap.get (applyE t e (copy e h).2).2 i = Heap.get (copy e h).2 i := by
+  rw [applyE_heap, runV_untouched]
+  intro hmem
+  obtain ⟨v, hv, hvi⟩ := List.mem_map.mp hmem
+  have := hin v hv
+  omega
+
 end CBV.C09
